@@ -11,12 +11,15 @@ Record case := mkCase {
   c_scn : Z;             (* 1 second load fails after init, 2 second load empty (attach fails), 3 no RPM sensor (sweep, nothing stored),
                             4 control error with the device gone, 5 control error, 6 cancel while ticking,
                             7 placeholder data cannot be saved, 8 initialisation sequence fails,
-                            9 never-stop fan stalled at max PWM, 10 ... after the minimum was raised step by step *)
+                            9 never-stop fan stalled at max PWM, 10 ... after the minimum was raised step by step,
+                            11 cancelled while a control cycle is in flight (released after the other actors returned),
+                            12 cancelled with a tick pending *)
   c_top : Z;             (* PWM at which the start-up activity leaves the fan *)
   o_ret : Z;             (* 0 nil, 1 error, 2 panic, 3 did not return *)
   o_touched : bool;      (* some write reached the fan *)
   o_dev : dev;
   o_evals : Z;           (* curve evaluations (= control cycles) until Run returned *)
+  c_norpm : bool;        (* fan without RPM input (no RPM monitor actor) *)
 }.
 
 Definition plan_ok : rplan := mkPlan WOk WOk ROk WOk.
@@ -33,7 +36,7 @@ Definition sched_of (c : case) : list event :=
   | 1 | 2 | 3 => [ok; ok; Advance 0%nat (mk false true false false (left c)); Advance 0%nat (mk true false false false (left c))]
   | 4 => ticking ++ [Tick 0%nat (mkTick (left c) true plan_gone); SigRecv; RpmDone 0%nat]
   | 5 | 9 | 10 => ticking ++ [Tick 0%nat (mkTick (left c) true plan_ok); SigRecv; RpmDone 0%nat]
-  | 6 => ticking ++ [SigRecv; ok; RpmDone 0%nat]
+  | 6 | 11 | 12 => ticking ++ [SigRecv; ok; RpmDone 0%nat]
   | 7 => [ok; ok; Advance 0%nat (mk true true true false (left c))]
   | 8 => [ok; ok; Advance 0%nat (mk true true false false (left c))]
   | _ => []
@@ -42,7 +45,7 @@ Definition sched_of (c : case) : list event :=
 (* scenarios 4-6: the driver cancels the context (4, 5: once the restore has begun, so that the RPM monitor
    lets Run return); in the one-controller model the signal actor stands for the canceller *)
 Definition start (c : case) : proc :=
-  let s := init [(BHwmon, c_exists c, negb (c_scn c =? 3), c_orig c)] 0 in
+  let s := init [(BHwmon, c_exists c, negb ((c_scn c =? 3) || c_norpm c), c_orig c)] 0 in
   if ((4 <=? c_scn c) && (c_scn c <=? 6)) || (9 <=? c_scn c) then mkProc (ctrls s) (mons s) (cancelled s) true (sig_closed s) (sig_done s) (first_done s) (first_err s) (st s) else s.
 
 Definition model (D : Defects) (c : case) : proc := exec D (start c) (sched_of c).
